@@ -616,8 +616,6 @@ def subshell (g : Grows) (h : Heap) (r : Runner) (bg : Bool) : Option (Heap × R
 
 /-! ### Initial state (`New` + `Reset`) -/
 
-def nOpts : Nat := 7 + 8
-
 def initState (base : List (Bytes × Bytes)) (dir : Bytes) (nopts : Nat) : Option (Heap × Runner) := do
   let h : Heap := { scopes := [{ parent := .base }] }
   let (s, boot) := sliceMake h.strs [] 1
